@@ -29,9 +29,14 @@ N     == Len(File.cases)
 ToSet(q) == {q[i] : i \in DOMAIN q}
 ItemSet(q) == {Items[q[i]] : i \in DOMAIN q}
 Side(k) == LET j == File.sides[k]
+               u == ItemSet(j.u)
+               n == ItemSet(j.n)
            IN [tw |-> j.t > 0, t |-> j.t, D |-> ItemSet(j.D), N |-> ItemSet(j.N),
-               u |-> ItemSet(j.u), n |-> ItemSet(j.n), s |-> ToSet(j.s)]
-Obs(j) == [O |-> Side(j.O), C |-> Side(j.C), eq |-> j.eq, ref |-> j.ref]
+               u |-> u, U |-> T!Strip(u), n |-> n, no |-> {x.o : x \in n},
+               s |-> ToSet(j.s)]
+\* every distinct side observation is converted once
+Sides == [k \in DOMAIN File.sides |-> Side(k)]
+Obs(j) == [O |-> Sides[j.O], C |-> Sides[j.C], eq |-> j.eq, ref |-> j.ref]
 
 \* where the real outcome differs from the model's prediction
 Diverge(c, post) ==
